@@ -385,9 +385,8 @@ Proof.
     { apply Forall_app in Hnz. destruct Hnz as [Hnz _]. apply Forall_app in Hnz. tauto. }
     rewrite !app_length in Hlen. simpl in Hlen.
     destruct (Inv_step t done a I Ha Hnew Hd ltac:(lia)) as [p [Hp I']].
-    fold (st a). unfold st at 1 in Hp. rewrite N2Nat.id in Hp.
+    unfold st in Hp. rewrite N2Nat.id in Hp.
     rewrite (inv_len t done I) in *.
-    assert (E : (fst a / 256) mod N.of_nat m = (fst a / 256) mod N.of_nat m) by auto.
     rewrite Hp.
     apply IHrest; auto. rewrite !app_length. simpl. lia.
 Qed.
@@ -395,7 +394,7 @@ Qed.
 End Table.
 
 (* build_table on the entries of one table: nslots = 2 * n *)
-Lemma build_table_Inv : forall es,
+Lemma build_table_Inv : forall es : list slot,
   es <> [] -> 2 * nlen es < 4294967296 ->
   Forall (fun a => snd a <> 0) es -> NoDup (map snd es) ->
   exists t, build_table es = Some t /\ Inv (2 * length es) t es.
@@ -403,9 +402,12 @@ Proof.
   intros es Hne H32 Hnz Hnd.
   unfold build_table. rewrite w32_small by auto.
   assert (Hm : 2 * nlen es = N.of_nat (2 * length es)) by (unfold nlen; lia).
-  Show. rewrite Hm. rewrite Nat2N.id.
+  rewrite Hm. rewrite Nat2N.id.
   assert (Hpos : (0 < 2 * length es)%nat) by (destruct es; simpl; try congruence; lia).
-  apply (fill_Inv (2 * length es) Hpos ltac:(lia) es (repeat empty_slot (2 * length es)) []); simpl; auto.
-  - apply Inv_init.
-  - lia.
+  assert (H32' : N.of_nat (2 * length es) < 4294967296) by lia.
+  apply (fill_Inv (2 * length es) Hpos H32' es (repeat empty_slot (2 * length es)) []).
+  - apply Inv_init; auto.
+  - exact Hnz.
+  - exact Hnd.
+  - change ([] ++ es) with es. lia.
 Qed.
